@@ -52,7 +52,7 @@ def scanLatest : List Version → Nat → Bool × Option Nat × Bool → Bool ×
 
 /-- `sortNPMVersions` (match.go:60-109). -/
 def sortNPMVersions (vs : List Version) : List Version :=
-  let sorted := vs.mergeSort fun a b => !versionLess b a
+  let sorted := stableSort versionLess vs
   match scanLatest sorted 0 (true, none, false) with
   | (allPre, some i, lpre) =>
     if !(lpre && !allPre) then
